@@ -100,6 +100,7 @@ type pendW struct {
 	ctr  uint64
 	s    string
 	v    int
+	c    string // the writing client feature
 }
 
 type regModel struct {
@@ -653,7 +654,7 @@ func (rw *regWorld) apply(op string, judge bool) (viol []string, digest string, 
 		pending := accept && rw.approval
 		switch {
 		case pending:
-			m.pend = append(m.pend, pendW{p, uint64(*d.Header.MsgCounter), s, v})
+			m.pend = append(m.pend, pendW{p, uint64(*d.Header.MsgCounter), s, v, c})
 		case accept:
 			effect = true
 			m.data[s] = v
@@ -758,6 +759,14 @@ func (rw *regWorld) apply(op string, judge bool) (viol []string, digest string, 
 			m.binds, n = dropWhere(m.binds, func(x regEntry) bool { return x.peer == p && entCode(clientVar(x.c).ent) == e })
 			expEv[fmt.Sprint(api.EventTypeBindingChange, api.ElementChangeRemove)] += n
 			expEv[fmt.Sprint(api.EventTypeEntityChange, api.ElementChangeRemove)]++
+			// "... pending write approvals ... that refer to that device or entity disappear"
+			var np []pendW
+			for _, pw := range m.pend {
+				if !(pw.peer == p && entCode(clientVar(pw.c).ent) == e) {
+					np = append(np, pw)
+				}
+			}
+			m.pend = np
 			for _, l := range []uint{1, 2} {
 				delete(m.lsubs, fmt.Sprintf("L%d|%s|%d", l, p, e))
 				delete(m.lbinds, fmt.Sprintf("L%d|%s|%d", l, p, e))
